@@ -154,6 +154,22 @@ def _bound_by(db, chk, m):
     chk.floor(rule, 8)
 
 
+def _eval_value(t, leaf):
+    """evaluate a value-producing term (cases / ite chains over boolean terms) on representatives"""
+    if t[0] == "cases":
+        hits = [v for c, v in t[1] if T.evaluate(c, leaf)]
+        if len(hits) != 1:
+            raise T.Unknown(("cases", len(hits)))
+        return _eval_value(hits[0], leaf)
+    if t[0] == "ite":
+        return _eval_value(t[2] if T.evaluate(t[1], leaf) else t[3], leaf)
+    if t[0] in ("mapf",) and len(t) == 3:
+        return _eval_value(t[2], leaf)
+    if t[0] == "const":
+        return t[1]
+    return T.evaluate(t, leaf)
+
+
 def _breakdown(db, chk, m):
     rule = "C10.R3-conservation"
     ref = f"{CP}:CPGraph.get_critical_path_breakdown"
@@ -202,7 +218,58 @@ def _breakdown(db, chk, m):
     chk.ob(rule, "no row of the merged table is removed, merged or duplicated afterwards", not after and R.rows == T.TRUE, where, found=[(e["kind"], e["line"]) for e in after], accepted="none",
            why="de-duplication collapses two critical edges with equal (event, type, duration): rows and durations no longer add up to the path")
     bb = R.col("bound_by")
-    chk.ob(rule, "bound_by column = bound_by(row) applied row-wise", None if T.has_opaque(bb) else bb[0] in ("cases", "const", "mapf", "ite"), where, found=T.show(bb)[:100], accepted="edge_events_df.apply(bound_by, axis=1)")
+    enum = m.enum_members("CPEdgeType")
+    tbl = {"KERNEL_KERNEL_DELAY": "gpu_kernel_kernel_overhead", "KERNEL_LAUNCH_DELAY": "gpu_kernel_launch_overhead", "DEPENDENCY": "", "SYNC_DEPENDENCY": ""}
+    bad, verdict = [], (None if T.has_opaque(bb) else True)
+    if verdict:
+        for mem, val in sorted(enum.items()):
+            for stream in (-1, 7):
+                for comm in (True, False):
+                    def leaf(x, val=val, stream=stream, comm=comm):
+                        y = x
+                        while isinstance(y, tuple) and y and y[0] in ("nullable", "fillna"):
+                            y = y[1]
+                        if isinstance(y, tuple) and y and y[0] == "jl" and "'type'" in T.show(y[2])[:200] and "reccol" in T.show(y[2])[:40]:
+                            return val
+                        if isinstance(y, tuple) and y and y[0] == "jl" and y[2][0] == "reccol" and "type" in T.show(y[2][2]):
+                            return val
+                        if isinstance(y, tuple) and y and y[0] == "jr" and y[2] == T.col(TD, "stream"):
+                            return stream
+                        if isinstance(y, tuple) and y and y[0] == "re" and "nccl" in T.show(y[2]):
+                            return "match" if comm else None
+                        if isinstance(y, tuple) and y and y[0] in ("notnull", "isinstance"):
+                            return True
+                        if isinstance(y, tuple) and y and y[0] == "strmatch" and T.is_const(y[3]) and isinstance(y[3][1], str):
+                            subj = T.evaluate(y[2], leaf)
+                            if isinstance(subj, str):
+                                import re as _re
+                                return {"endswith": subj.endswith(y[3][1]), "startswith": subj.startswith(y[3][1]), "match": _re.match(y[3][1], subj) is not None,
+                                        "contains": _re.search(y[3][1], subj) is not None, "fullmatch": _re.fullmatch(y[3][1], subj) is not None}[y[1]]
+                        if isinstance(y, tuple) and y and y[0] == "mapf" and len(y) == 3:
+                            return _eval_value(y[2], leaf)
+                        if isinstance(y, tuple) and y and y[0] in ("bitand", "bitor") and len(y) == 3:
+                            a_, b_ = bool(_eval_value(y[1], leaf)), bool(_eval_value(y[2], leaf))
+                            return (a_ and b_) if y[0] == "bitand" else (a_ or b_)
+                        if isinstance(y, tuple) and y and y[0] in ("cases", "ite"):
+                            return _eval_value(y, leaf)
+                        raise T.Unknown(x)
+                    want = tbl.get(mem) if mem in tbl else ("cpu_bound" if stream < 0 else ("gpu_communication_bound" if comm else "gpu_compute_bound"))
+                    try:
+                        got = _eval_value(bb, leaf)
+                    except T.Unknown as u:
+                        verdict = None
+                        bad.append("reads " + T.show(u.args[0])[:90])
+                        break
+                    if got != want:
+                        verdict = False
+                        bad.append({"type": mem, "stream": stream, "comm": comm, "got": got, "expected": want})
+                if verdict is None:
+                    break
+            if verdict is None:
+                break
+    chk.ob(rule, "the bound_by COLUMN of the breakdown realises the documented decision table on all 20 (edge type, host/device, communication) cases", verdict, where, found=bad[:3] or "20 cases agree",
+           accepted="delay edges -> overhead class first; host -> cpu_bound; communication kernel -> gpu_communication_bound; else gpu_compute_bound",
+           why="testing 'NCCL kernel' before the edge type classes the gap after a collective as communication-bound")
     # summary
     sm = m.func("CPGraph.summary")
     EDF = ("param", "EDF")
